@@ -172,6 +172,10 @@ func singleQuoteState(l *sqlLexer) stateFn {
 		l.pos += width
 
 		switch r {
+		case '\\':
+			// the MySQL-dialect parser honours backslash escapes in quoted strings
+			_, width = utf8.DecodeRuneInString(l.src[l.pos:])
+			l.pos += width
 		case '\'':
 			nextRune, width := utf8.DecodeRuneInString(l.src[l.pos:])
 			if nextRune != '\'' {
@@ -196,6 +200,10 @@ func doubleQuoteState(l *sqlLexer) stateFn {
 		l.pos += width
 
 		switch r {
+		case '\\':
+			// the MySQL-dialect parser honours backslash escapes in quoted strings
+			_, width = utf8.DecodeRuneInString(l.src[l.pos:])
+			l.pos += width
 		case '"':
 			nextRune, width := utf8.DecodeRuneInString(l.src[l.pos:])
 			if nextRune != '"' {
